@@ -22,11 +22,12 @@ pub const STR_FAULTS: [&str; 33] = [
 ];
 
 /// Ill-typed / ill-formed single statements.
-pub const STMT_FAULTS: [&str; 31] = [
+pub const STMT_FAULTS: [&str; 37] = [
     "PRINT REC", "PRINT 1; REC", "REC = 5", "ZN# = \"a\"", "ZS$ = 5", "ZN# = REC", "ZS$ = REC", "Sb1 \"a\"", "Sb1 1, 2", "Sb1", "SbS 5", "Sb1 ZS$", "SbS ZN#", "Sb1 SARR$(1)", "SbS ARR%(1)",
     "GOTO Nowhere", "GOSUB Nowhere", "ARR%(1) = \"a\"", "SARR$(1) = 5", "REC.N = \"a\"", "REC.S = 5", "CALL Sb1(\"a\")",
     "SbArr LARR&()", "SbArr SARR$()", "SbArr ZN#", "Sb1 ARR%()", "SbArr REC", "SbArr ARR%(1)",
     "ZC.D = 1", "ZC = 1", "ZC.D$ = \"a\"",
+    "LINE INPUT SARR$()", "INPUT SARR$()", "INPUT ARR%()", "SbSA FARR()", "SbSA SARR$()", "SbArr FARR()",
 ];
 
 /// Statement templates with one numeric expression hole `{e}`; several lines = a block statement.
@@ -98,7 +99,7 @@ pub struct Case {
     pub rows: (u32, u32),
 }
 
-const PRELUDE: [&str; 15] = [
+const PRELUDE: [&str; 16] = [
     "TYPE RT",
     "  N AS INTEGER",
     "  S AS STRING * 4",
@@ -107,6 +108,7 @@ const PRELUDE: [&str; 15] = [
     "DIM SHARED ARR%(3)",
     "DIM SHARED SARR$(3)",
     "DIM SHARED LARR&(3)",
+    "DIM SHARED FARR(1 TO 2) AS STRING * 4",
     "DIM SHARED ZN#",
     "DIM SHARED ZS$",
     "DIM SHARED ZW%",
@@ -116,7 +118,10 @@ const PRELUDE: [&str; 15] = [
     "CONST ZC.D = 5",
 ];
 
-const PROCS: [&str; 18] = [
+const PROCS: [&str; 21] = [
+    "SUB SbSA (P$())",
+    "  P$(1) = P$(1) + \"!\"",
+    "END SUB",
     "SUB SbArr (P%())",
     "  P%(1) = P%(1) + 1",
     "END SUB",
